@@ -51,6 +51,18 @@ def make_rule(name: str):
             r = op.Max(x, op.Constant(value_float=0.0))
             return r, op.Min(op.Neg(x), op.Constant(value_float=0.0))
         return P.RewriteRule(pat, rep, name=name)
+    if name == "relu_neg_two_outputs_between":
+        r_ = make_rule("relu_neg_two_outputs")
+        r_.name = name
+        return r_
+    if name in ("two_roots", "two_roots_between", "two_roots_second_first"):
+        # two output nodes that only share the input x (like the shipped slice_split_rule); replacement re-emits both
+        def pat2(op, x):
+            return op.Neg(op.Neg(x)), op.Relu(x)
+
+        def rep2(op, x):
+            return op.Identity(x), op.Max(x, op.Constant(value_float=0.0))
+        return P.RewriteRule(pat2, rep2, name=name)
     if name == "sub_to_add_neg":
         return P.RewriteRule(lambda op, x, y: op.Sub(x, y), lambda op, x, y: op.Add(x, op.Neg(y)), name=name)
     if name == "add_const_reassoc":
@@ -69,7 +81,9 @@ def make_rule(name: str):
 
 
 RULES = ["reemit_relu", "swap_add", "double_transpose", "neg_neg", "mul_one", "relu_neg_two_outputs", "sub_to_add_neg",
-         "add_const_reassoc", "neg_neg_as_function", "relu_neg_keep_nodes", "mul_add_as_function"]
+         "add_const_reassoc", "neg_neg_as_function", "relu_neg_keep_nodes", "mul_add_as_function",
+         # multi-output patterns whose hosts put a consumer of the first output BETWEEN the matched output nodes
+         "relu_neg_two_outputs_between", "two_roots", "two_roots_between", "two_roots_second_first"]
 
 
 def instance(rule: str, src: str, pfx: str, nodes: list, inits: list):
@@ -100,6 +114,30 @@ def instance(rule: str, src: str, pfx: str, nodes: list, inits: list):
         nodes.append(oh.make_node("Add", [n("r"), n("nr")], [n("s")]))  # both outputs used
         nodes.append(oh.make_node("Add", [n("s"), n("r")], [n("o")]))
         return n("o"), []
+    if rule == "relu_neg_two_outputs_between":
+        nodes.append(oh.make_node("Relu", [src], [n("r")]))
+        nodes.append(oh.make_node("Abs", [n("r")], [n("c")]))       # consumer of output 0 before the node producing output 1
+        nodes.append(oh.make_node("Neg", [n("r")], [n("nr")]))
+        nodes.append(oh.make_node("Add", [n("c"), n("nr")], [n("o")]))
+        return n("o"), []
+    if rule == "two_roots_second_first":
+        nodes.append(oh.make_node("Relu", [src], [n("b")]))         # the node of pattern output 1 comes first in the host
+        nodes.append(oh.make_node("Abs", [n("b")], [n("c")]))       # ... and its consumer precedes the node of pattern output 0
+        nodes.append(oh.make_node("Neg", [src], [n("n1")]))
+        nodes.append(oh.make_node("Neg", [n("n1")], [n("a")]))
+        nodes.append(oh.make_node("Add", [n("c"), n("a")], [n("o")]))
+        return n("o"), [n("n1")]
+    if rule in ("two_roots", "two_roots_between"):
+        nodes.append(oh.make_node("Neg", [src], [n("n1")]))
+        nodes.append(oh.make_node("Neg", [n("n1")], [n("a")]))
+        if rule == "two_roots_between":
+            nodes.append(oh.make_node("Abs", [n("a")], [n("c")]))   # consumer of output 0 between the two matched roots
+            nodes.append(oh.make_node("Relu", [src], [n("b")]))
+        else:
+            nodes.append(oh.make_node("Relu", [src], [n("b")]))
+            nodes.append(oh.make_node("Abs", [n("a")], [n("c")]))
+        nodes.append(oh.make_node("Add", [n("c"), n("b")], [n("o")]))
+        return n("o"), [n("n1")]
     if rule == "relu_neg_keep_nodes":
         nodes.append(oh.make_node("Relu", [src], [n("r")]))
         nodes.append(oh.make_node("Neg", [n("r")], [n("nr")]))
